@@ -1,6 +1,7 @@
 """C18 - constraint classification and splitting (models/feature_model.py + flamapy.core ast.py)."""
 from contracts.api import contract, spec, FM, CORE_AST, implies, iff, same
 from contracts.spec_ctc import *
+from contracts.api import top, popped, no_more
 
 
 # ------------------------------------------------------------------ native input generators (bounded stand-in only)
@@ -271,13 +272,66 @@ class IsAggregation:
         return result == any(o in AGGR_OPS for o in ops_of(self.ast.root))
 
 
-@contract(FM, 'Constraint.get_features', prop='C18')
+@spec
+def names_in_tree(n: 'Node') -> 'set[Any]':
+    """the names a constraint mentions: the data of its terms that are neither numbers nor string constants ('...'); the scan
+    does not descend into aggregates (C02 known finding) and treats a term that has children like an operator"""
+    if n is None:
+        return set()
+    if n.is_unique_term():
+        if isinstance(n.data, (int, float)) or n.data.startswith("'"):
+            return set()
+        return {n.data}
+    if n.is_unary_op():
+        return names_in_tree(n.left)
+    if n.is_binary_op():
+        return names_in_tree(n.left) | names_in_tree(n.right)
+    return set()
+
+
+@spec
+def waiting_names(st: 'Stack[Node]') -> 'set[Any]':
+    if no_more(st):
+        return set()
+    return names_in_tree(top(st)) | waiting_names(popped(st))
+
+
+@spec
+def waiting_terms_ok(st: 'Stack[Node]') -> bool:
+    if no_more(st):
+        return True
+    return terms_are_values(top(st)) and waiting_terms_ok(popped(st))
+
+
+@spec
+def terms_are_values(n: 'Node') -> bool:
+    """the data of a term is a str, an int or a float (what the readers produce): no None"""
+    if n is None:
+        return True
+    if not n.is_op() and n.left is None:
+        return isinstance(n.data, (int, float, str))
+    return terms_are_values(n.left) and terms_are_values(n.right)
+
+
+@contract(FM, 'Constraint.get_features', prop='C18', also=('C02',))
 class CtcGetFeatures:
     models = staticmethod(ctc_models)
+    kinds = {'features': 'set[Any]', 'stack': 'Stack[Node]'}
+    native_only = ('post_names',)
+
+    def post_set(self, result):
+        # exactly the names written in the constraint, each once
+        return set(result) == names_in_tree(self.ast.root)
+
+    def post_each_once(self, result):
+        return all(result[i] != result[j] for i in range(len(result)) for j in range(i))
+
+    def inv_1(self, features, stack):
+        return (features | waiting_names(stack)) == names_in_tree(self.ast.root) and waiting_terms_ok(stack)
 
     def pre(self):
         # operands of aggregate functions are attribute references, not features: outside the clause
-        return not any(o in AGGR_OPS for o in ops_of(self.ast.root))
+        return terms_are_values(self.ast.root) and not some_op_aggregation(self.ast.root)
 
     def post_names(self, result):
         exp = {x for x in names_of(self.ast.root) if isinstance(x, str) and not x.startswith("'")}
@@ -452,7 +506,6 @@ class GetStrictComplexConstraints:
 
 
 # ------------------------------------------------------------------ the operator scan of the dependency (explicit stack)
-from contracts.api import top, popped, no_more
 
 
 @spec
